@@ -1,10 +1,11 @@
 """C05 — defs write at the call site; buffering, capture, calls with content."""
-from vrf.propkit import run_pyvc, contracts_for, BASE_TRUST, BASE_ASSUME
+from vrf.propkit import run_pyvc, run_schema, contracts_for, BASE_TRUST, BASE_ASSUME
+from vrf.schema.programs import family
 
 LEVEL = "proof"
 META = {
     "level": "proof",
-    "technique": "contract-based deductive verification: sidecar pre/postconditions on the real runtime functions, VCs from their AST, z3/cvc5",
+    "technique": "contract-based deductive verification: sidecar pre/postconditions, frames and loop invariants on the real runtime functions AND on every function the real compiler generates for a family of schematic templates (holes = induction hypothesis); VCs from the AST, discharged by z3/cvc5",
     "level_text": "Every obligation generated from the current source of the buffer-stack, caller-stack, capture and supports_caller functions is discharged by an SMT solver for all stack depths and contents, on normal and exceptional exits; callers are checked against callee contracts only.",
     "level_note": "Trusted: the pyvc encoding of Python semantics (DESIGN 3.1), z3/cvc5, the induction hypothesis 'balanced' for opaque render callables, collections.deque modelled as a list. Native small-scope runs of the same contracts are bounded stand-ins and are not counted as proved.",
 }
@@ -14,3 +15,4 @@ def run(rep, tier):
     rep.trust(*BASE_TRUST)
     rep.assume(*BASE_ASSUME)
     run_pyvc(rep, contracts_for("C05"), native_limit=150 if tier == "quick" else 600)
+    run_schema(rep, family(tier), labels="normal")
